@@ -44,6 +44,24 @@ func (p *Prog) reachableFrom(entries map[string]*ssa.Function) map[*ssa.Function
 		for _, ce := range p.effects(fn).calls {
 			visit(ce.Callee)
 		}
+		// a module-declared type handed on as an interface value: code outside the module (fmt,
+		// sort, encoders) may call its hand-written methods
+		for _, b := range fn.Blocks {
+			for _, in := range b.Instrs {
+				if mi, ok := in.(*ssa.MakeInterface); ok {
+					if n := p.moduleNamed(mi.X.Type()); n != nil {
+						for _, m := range p.handWrittenMethods(n) {
+							if !knownFuncs[funcName(m)] {
+								visit(m)
+							}
+						}
+					}
+				}
+			}
+		}
+		for _, an := range fn.AnonFuncs {
+			visit(an)
+		}
 	}
 	for _, fn := range entries {
 		visit(fn)
@@ -76,9 +94,51 @@ func (p *Prog) panicSites(reach map[*ssa.Function]bool) []panicSite {
 						out = append(out, panicSite{"assert", fn, in, x.Of(in.X, in).String() + ".(" + typeStr(in.AssertedType) + ")"})
 					}
 				case *ssa.BinOp:
+					if in.Op == token.SHL || in.Op == token.SHR {
+						if b, ok := in.Y.Type().Underlying().(*types.Basic); ok && b.Info()&types.IsUnsigned == 0 {
+							if _, isC := constInt(in.Y); !isC {
+								out = append(out, panicSite{"shift", fn, in, x.Of(in, in).String()})
+							}
+						}
+					}
 					if in.Op == token.QUO || in.Op == token.REM {
 						if b, ok := in.Type().Underlying().(*types.Basic); ok && b.Info()&types.IsInteger != 0 {
 							out = append(out, panicSite{"div", fn, in, x.Of(in, in).String()})
+						}
+					}
+				case *ssa.SliceToArrayPointer:
+					out = append(out, panicSite{"toarray", fn, in, x.Of(in.X, in).String() + " -> " + typeStr(in.Type())})
+				case *ssa.UnOp:
+					if in.Op == token.MUL {
+						switch in.X.(type) {
+						case *ssa.Phi, *ssa.Call, *ssa.Const:
+							out = append(out, panicSite{"nilderef", fn, in, "*" + x.Of(in.X, in).String()})
+						}
+					}
+				case *ssa.FieldAddr:
+					switch in.X.(type) {
+					case *ssa.Phi, *ssa.Call, *ssa.Const:
+						out = append(out, panicSite{"nilderef", fn, in, x.Of(in.X, in).String() + "." + fieldName(in)})
+					}
+				case *ssa.Call:
+					if in.Call.StaticCallee() == nil && !in.Call.IsInvoke() {
+						if _, isB := in.Call.Value.(*ssa.Builtin); !isB {
+							switch fv := in.Call.Value.(type) {
+							case *ssa.MakeClosure, *ssa.Function, *ssa.Parameter, *ssa.FreeVar:
+							case *ssa.Const:
+								out = append(out, panicSite{"nilcall", fn, in, "nil function"})
+							case *ssa.Phi:
+								for _, e := range fv.Edges {
+									if k, ok := e.(*ssa.Const); ok && k.Value == nil {
+										out = append(out, panicSite{"nilcall", fn, in, x.Of(fv, in).String()})
+									}
+								}
+							case *ssa.UnOp:
+								if g, ok := fv.X.(*ssa.Global); ok {
+									_ = g
+									out = append(out, panicSite{"nilcall", fn, in, x.Of(fv, in).String()})
+								}
+							}
 						}
 					}
 				case *ssa.MapUpdate:
